@@ -7,6 +7,7 @@ import (
 	"go/constant"
 	"go/token"
 	"go/types"
+	"sort"
 	"strings"
 )
 
@@ -15,16 +16,16 @@ func init() { register("C09", "other", checkC09) }
 // consumerTable classifies every loop over []analysis.StructField by what it produces.
 // json: output keyed like encoding/json; go: Go code mirroring the struct; sql: SQL columns.
 var consumerTable = map[string]string{
-	"generator/typescript.codeForStruct":                     "json",
-	"generator/dart.(buffer).codeForStruct":                  "json",
-	"generator/dart.jsonForStruct":                           "json",
-	"generator/sql.codeForStruct":                            "json",
-	"generator/go/gounions.(context).codeForStruct":          "go",
-	"generator/go/randdata.(context).codeForStruct":          "go",
-	"generator/go/sqlcrud.(context).compositeConverters":     "go",
-	"analysis/sql.NewTable":                                  "sql",
-	"analysis/sql.isComposite":                               "sql",
-	"generator/sql.compositeDecl":                            "sql",
+	"generator/typescript.codeForStruct":                 "json",
+	"generator/dart.(buffer).codeForStruct":              "json",
+	"generator/dart.jsonForStruct":                       "json",
+	"generator/sql.codeForStruct":                        "json",
+	"generator/go/gounions.(context).codeForStruct":      "go",
+	"generator/go/randdata.(context).codeForStruct":      "go",
+	"generator/go/sqlcrud.(context).compositeConverters": "go",
+	"analysis/sql.NewTable":                              "sql",
+	"analysis/sql.isComposite":                           "sql",
+	"generator/sql.compositeDecl":                        "sql",
 }
 
 // checkJSONConsumers: guard-first, JSONName-only naming.
@@ -50,14 +51,24 @@ func checkJSONConsumers(w *World, r *Result, rule string) int {
 		info := fl.pkg.TypesInfo
 		// 1. first statement is `if !f.Exported() { continue }`
 		first := false
-		if len(fl.rs.Body.List) > 0 {
-			if is, ok := fl.rs.Body.List[0].(*ast.IfStmt); ok && is.Init == nil && is.Else == nil && terminates(is.Body) {
-				cs := condSet(info, splitCond(is.Cond, true), fl.subst)
+		for _, st := range fl.rs.Body.List {
+			if len(usesOf(info, st, fl.v, "$f")) == 0 {
+				continue // a statement that does not touch the field
+			}
+			// the first statement that mentions the field must be the guard (the test may be bound by the if's init)
+			if is, ok := st.(*ast.IfStmt); ok && is.Else == nil && terminates(is.Body) {
+				var cs []string
+				if is.Init != nil {
+					cs = condSetWithInit(info, is, fl.subst)
+				} else {
+					cs = condSet(info, splitCond(is.Cond, true), fl.subst)
+				}
 				first = len(cs) == 1 && cs[0] == "!($f.Exported())"
 			}
+			break
 		}
 		r.cond(first, rule, fl.fn.Name, cons+": guard first", pos,
-			"the body starts with `if !f.Exported() { continue }`, which dominates every other use of the field: ignored fields contribute nothing",
+			"the first statement of the body that mentions the field is `if !f.Exported() { continue }`, which dominates every other use of the field: ignored fields contribute nothing",
 			"the body does not start with `if !f.Exported() { continue }`: an ignored field (unexported, json:\"-\", gomacro:\"ignore\") can reach the output or trigger generation of its type")
 		// 2. names only from JSONName
 		uses := usesOf(info, fl.rs.Body, fl.v, "$f")
@@ -297,16 +308,33 @@ func checkExported(w *World, r *Result) {
 				r.bad("AGR-C09b", name, "return true", w.Pos(ret.Pos()), "Exported() returns true without consulting go/types' Exported()")
 				return true
 			}
-			// enclosing if with init
-			var conds []string
+			// enclosing ifs, outermost first; a guard `A || B` gives two alternative rules, nesting and && conjoin
+			alts := []string{""}
 			ast.Inspect(fi.Decl.Body, func(m ast.Node) bool {
 				is, ok := m.(*ast.IfStmt)
 				if !ok || !(is.Body.Pos() <= ret.Pos() && ret.End() <= is.Body.End()) {
 					return true
 				}
-				conds = append(conds, tagCondition(info, is)...)
+				var next []string
+				for _, d := range disjuncts(is.Cond, true) {
+					cj := strings.Join(tagCondition(info, fi.Decl, is, d), " && ")
+					for _, a := range alts {
+						if a != "" {
+							next = append(next, a+" && "+cj)
+						} else {
+							next = append(next, cj)
+						}
+					}
+				}
+				alts = next
 				return true
 			})
+			var conds []string
+			for _, a := range alts {
+				if a != "" {
+					conds = append(conds, a)
+				}
+			}
 			for _, c := range conds {
 				falseConds[c] = true
 			}
@@ -346,32 +374,55 @@ func checkExported(w *World, r *Result) {
 	r.cond(finalOK, "AGR-C09b", name, "otherwise go/types Exported()", fnPos(w, fi), "the remaining path returns the field's Exported()", "the fall-through path does not return the field's Exported()")
 }
 
-// tagCondition renders `if name := st.Tag.Get("k"); name == "v"` as `k == "v"`.
-func tagCondition(info *types.Info, is *ast.IfStmt) []string {
+// tagCondition renders the conjunction cond, met under `if name := st.Tag.Get("k"); name == "v"` (or with the
+// lookup bound by an earlier single assignment, or inline), as `k == "v"`.
+func tagCondition(info *types.Info, fd *ast.FuncDecl, is *ast.IfStmt, cond pcond) []string {
 	local := map[types.Object]string{}
-	if as, ok := is.Init.(*ast.AssignStmt); ok && len(as.Rhs) == 1 {
-		if k, ok := tagGetKey(info, as.Rhs[0]); ok {
-			if id := identOf(as.Lhs[0]); id != nil {
-				local[info.Defs[id]] = k
+	ndef := map[types.Object]int{}
+	ast.Inspect(fd.Body, func(n ast.Node) bool {
+		as, ok := n.(*ast.AssignStmt)
+		if !ok {
+			return true
+		}
+		for _, l := range as.Lhs {
+			if id := identOf(l); id != nil {
+				ndef[objOf(info, id)]++
 			}
+		}
+		if len(as.Rhs) == 1 && len(as.Lhs) == 1 {
+			if k, ok := tagGetKey(info, as.Rhs[0]); ok {
+				if id := identOf(as.Lhs[0]); id != nil {
+					local[objOf(info, id)] = k
+				}
+			}
+		}
+		return true
+	})
+	for o, n := range ndef {
+		if n > 1 {
+			delete(local, o)
 		}
 	}
 	var out []string
-	for _, c := range splitCond(is.Cond, true) {
+	for _, c := range splitCond(cond.expr, cond.truth) {
 		be, ok := c.expr.(*ast.BinaryExpr)
 		if !ok {
 			out = append(out, "?"+es(c.expr))
 			continue
 		}
+		x, y := be.X, be.Y
+		if tv := info.Types[x]; tv.Value != nil { // "v" == name
+			x, y = y, x
+		}
 		lhs := ""
-		if id := identOf(be.X); id != nil {
+		if id := identOf(x); id != nil {
 			lhs = local[objOf(info, id)]
 		}
-		if k, ok := tagGetKey(info, be.X); ok {
+		if k, ok := tagGetKey(info, x); ok {
 			lhs = k
 		}
-		rhs := es(be.Y)
-		if tv := info.Types[be.Y]; tv.Value != nil {
+		rhs := es(y)
+		if tv := info.Types[y]; tv.Value != nil {
 			rhs = tv.Value.ExactString()
 		}
 		op := be.Op
@@ -384,6 +435,7 @@ func tagCondition(info *types.Info, is *ast.IfStmt) []string {
 		}
 		out = append(out, lhs+" "+op.String()+" "+rhs)
 	}
+	sort.Strings(out)
 	return out
 }
 
